@@ -58,9 +58,18 @@ def InstIn.isComplex : InstIn → Bool | .complex _ => true | _ => false
 
 def CleanParts (strict : Bool) (ps : List (List AttrD × List Tok)) : Prop := ∀ p ∈ ps, CleanL strict p.1 p.2
 
+/-- a conforming parameter list for the C++ attribute list of an entity that redeclares attributes (technical-corrigendum
+    encoding): every attribute reads without complaint, a redefining entry takes no value — and does not stand in front of a
+    parameter list that consists of one absent value (that is the shape the loop reads as "the last value was left out") -/
+inductive CleanSlots (strict : Bool) : List Slot → List Tok → Prop
+  | nil : CleanSlots strict [] []
+  | attr {a t es ts} : (attrRead strict a t).1 = .null → CleanSlots strict es ts → CleanSlots strict (.attr a :: es) (t :: ts)
+  | red {es ts} : ts ≠ [Tok.missing false] → CleanSlots strict es ts → CleanSlots strict (.redefining :: es) ts
+
 inductive CleanInst (strict : Bool) : InstIn → Prop
   | simple {as ts} : CleanL strict as ts → CleanInst strict (.simple as ts)
   | complex {ps} : CleanParts strict ps → CleanInst strict (.complex ps)
+  | slots {es ts} : CleanSlots strict es ts → CleanInst strict (.slots es ts)
 
 /-- `inst` is conforming except that the value of attribute `a` (at any position, in any part) is `$` (d = true) or
     absent (d = false) -/
@@ -70,6 +79,11 @@ inductive OneMissing (strict : Bool) (a : AttrD) (d : Bool) : InstIn → Prop
   | complex {ps₁ ps₂ as₁ ts₁ as₂ ts₂} : CleanParts strict ps₁ → CleanParts strict ps₂ →
       CleanL strict as₁ ts₁ → CleanL strict as₂ ts₂ →
       OneMissing strict a d (.complex (ps₁ ++ (as₁ ++ a :: as₂, ts₁ ++ Tok.missing d :: ts₂) :: ps₂))
+  /-- the shape every generated class with a redeclared attribute has: redefining entries between the attributes.  Excluded:
+      an ABSENT value that is the last of the list (`d = false`, nothing behind it) — the loop reads that as a left-out
+      trailing value: SEVERITY_WARNING instead of INCOMPLETE (`C15_trailing_value_left_out`), rejected either way -/
+  | slots {es₁ ts₁ es₂ ts₂} : CleanSlots strict es₁ ts₁ → CleanSlots strict es₂ ts₂ → (d = true ∨ ts₂ ≠ []) →
+      OneMissing strict a d (.slots (es₁ ++ Slot.attr a :: es₂) (ts₁ ++ Tok.missing d :: ts₂))
 
 /-- the same, restricted to the shapes on which the current code reports the attribute's error at all:
     an internally mapped instance (own and inherited attributes alike), or the FIRST part of a complex instance
@@ -221,6 +235,88 @@ theorem instRead_val_at {strict s : Bool} (hs : attrStrict strict = s) {as₁ ts
   have hl := cleanL_length h₁
   rw [List.zipWith_append hl]
   simp [List.length_zipWith, hl]
+
+/-! ### the read loop on a conforming attribute list with redefining entries -/
+
+theorem everyNthAux_mem (step : Nat) : ∀ (k : Nat) (l : List Slot) (x : Slot), x ∈ everyNthAux step k l → x ∈ l
+  | _, [], x, h => by simp [everyNthAux] at h
+  | 0, y :: ys, x, h => by
+    simp only [everyNthAux, List.mem_cons] at h
+    rcases h with h | h
+    · exact h ▸ List.mem_cons_self
+    · exact List.mem_cons_of_mem _ (everyNthAux_mem step _ ys x h)
+  | k + 1, y :: ys, x, h => by
+    simp only [everyNthAux] at h
+    exact List.mem_cons_of_mem _ (everyNthAux_mem step k ys x h)
+
+theorem cleanSlots_no_tokens {s es} (h : CleanSlots s es []) : ∀ x ∈ es, x.isAttr = false := by
+  generalize hts : ([] : List Tok) = ts at h
+  induction h with
+  | nil => intro x hx; cases hx
+  | attr _ _ _ => cases hts
+  | red _ _ ih =>
+    intro x hx
+    simp only [List.mem_cons] at hx
+    rcases hx with hx | hx
+    · subst hx; rfl
+    · exact ih hts x hx
+
+theorem lookAheadR_no_attr (step : Nat) (acc : Sev) {es : List Slot} (h : ∀ x ∈ es, x.isAttr = false) :
+    lookAheadR step acc es = acc := by
+  unfold lookAheadR
+  have : (everyNth step es).any Slot.isAttr = false := by
+    simp only [List.any_eq_false]
+    intro x hx
+    have := h x (everyNthAux_mem step 0 es x hx)
+    simp [this]
+  rw [this]; rfl
+
+theorem loopReadR_cleanS {strict s : Bool} (hs : attrStrict strict = s) (step : Nat) {es ts} (h : CleanSlots s es ts) (acc : Sev) :
+    (loopReadR step strict acc es ts).1 = acc := by
+  induction h generalizing acc with
+  | nil => rfl
+  | @attr a t es ts h1 hc ih =>
+    cases ts with
+    | nil =>
+      simp only [loopReadR, hs]
+      rw [h1, mergeAttr_null_right, lookAheadR_no_attr step acc (cleanSlots_no_tokens hc)]
+    | cons t' ts' => simp only [loopReadR, hs]; rw [ih, h1, mergeAttr_null_right]
+  | @red es ts hne hc ih =>
+    simp only [loopReadR]
+    exact ih acc
+
+theorem loopReadR_cleanS_prefix {strict s : Bool} (hs : attrStrict strict = s) (step : Nat) {es₁ ts₁} (h : CleanSlots s es₁ ts₁)
+    (es : List Slot) (t : Tok) (ts : List Tok) (hlast : t :: ts ≠ [Tok.missing false]) (acc : Sev) :
+    (loopReadR step strict acc (es₁ ++ es) (ts₁ ++ t :: ts)).1 = (loopReadR step strict acc es (t :: ts)).1 := by
+  induction h generalizing acc with
+  | nil => rfl
+  | @attr a t₀ es₀ ts₀ h1 _ ih =>
+    simp only [List.cons_append, loopReadR, hs]
+    cases hts : ts₀ ++ t :: ts with
+    | nil => simp at hts
+    | cons x xs => simp only []; rw [← hts, ih, h1, mergeAttr_null_right]
+  | @red es₀ ts₀ _ _ ih =>
+    have hne : ts₀ ++ t :: ts ≠ [Tok.missing false] := by
+      cases ts₀ with
+      | nil => exact hlast
+      | cons y ys => intro heq; simp at heq
+    simp only [List.cons_append, loopReadR]
+    exact ih acc
+
+/-- the decision table at every attribute position of such a list — plain, inherited or redeclared, whatever redefining
+    entries stand before and behind it: the instance's severity is what the attribute's own read decided.  Excluded (`hlast`):
+    an absent value that is the last of the list (see `OneMissing.slots`). -/
+theorem loopRead_position {strict s : Bool} (hs : attrStrict strict = s) {es₁ ts₁ es₂ ts₂} (a : AttrD) (t : Tok)
+    (h₁ : CleanSlots s es₁ ts₁) (h₂ : CleanSlots s es₂ ts₂) (hlast : t :: ts₂ ≠ [Tok.missing false]) :
+    (loopRead strict (es₁ ++ Slot.attr a :: es₂) (ts₁ ++ t :: ts₂)).1 = (attrRead s a t).1 := by
+  unfold loopRead
+  rw [loopReadR_cleanS_prefix hs _ h₁ _ t ts₂ hlast]
+  cases ts₂ with
+  | nil =>
+    simp only [loopReadR, hs]
+    rw [mergeAttr_null_left, lookAheadR_no_attr _ _ (cleanSlots_no_tokens h₂)]
+  | cons t' ts' =>
+    simp only [loopReadR, hs]; rw [loopReadR_cleanS hs _ h₂, mergeAttr_null_left]
 
 /-! ### complex instances -/
 
@@ -386,6 +482,7 @@ theorem readInstS_clean (S : CxShape) {s : Bool} {i : InstIn} (h : CleanInst s i
   cases h with
   | simple hc => exact instRead_sev_clean (C15_strict_plumbing s).1 hc
   | complex hp => exact complexReadS_sev_clean S (C15_strict_plumbing s).2.1 hp
+  | slots hc => exact loopReadR_cleanS (C15_strict_plumbing s).1 _ hc _
 
 theorem map_readInstS_clean (S : CxShape) {s : Bool} (is : List InstIn) (h : ∀ x ∈ is, CleanInst s x) :
     ∀ x ∈ is.map (readInstS S s), x.sev = .null := by
@@ -437,6 +534,12 @@ theorem readInstS_nd {rp s : Bool} {a : AttrD} {d : Bool} {i : InstIn} (ha : a.d
   | complex hp₁ hp₂ h₁ h₂ =>
     simp only [readInstS, InstIn.isComplex]
     rw [complexReadS_nd_at rp (C15_strict_plumbing s).2.1 a _ hp₁ hp₂ h₁ h₂ ha]
+  | @slots es₁ ts₁ es₂ ts₂ h₁ h₂ hl =>
+    simp only [readInstS, InstIn.isComplex]
+    rw [loopRead_position (C15_strict_plumbing s).1 a _ h₁ h₂ (by
+      rcases hl with hl | hl
+      · subst hl; intro h; simp at h
+      · intro h; simp at h; exact hl h.2)]
 
 /-! ### the property -/
 
@@ -447,7 +550,8 @@ theorem C15_conforming_clean (s : Bool) (is : List InstIn) (h : ∀ x ∈ is, Cl
   rw [this]; exact ⟨rfl, rfl⟩
 
 /-- OPTIONAL attribute unset — `$` or no value at all —, ANY position of ANY instance shape (any part of a complex
-    instance included), either mode: the file reads with severity NULL, p21read exits 0, the instance is complete. -/
+    instance included; attribute lists with redefining entries included, there except an absent LAST value, see
+    `OneMissing.slots`), either mode: the file reads with severity NULL, p21read exits 0, the instance is complete. -/
 theorem C15_optional_ok (s d r f g : Bool) (k : Kind) (i : InstIn) (pre post : List InstIn)
     (hpre : ∀ x ∈ pre, CleanInst s x) (hpost : ∀ x ∈ post, CleanInst s x)
     (h : OneMissing s (posAttr k true r f g) d i) :
@@ -469,6 +573,12 @@ theorem C15_optional_ok (s d r f g : Bool) (k : Kind) (i : InstIn) (pre post : L
       · exact hp₁ p hp
       · subst hp; exact cleanL_insert h₁ ha h₂
       · exact hp₂ p hp
+    | @slots es₁ ts₁ es₂ ts₂ h₁ h₂ hl =>
+      simp only [readInst, readInstS]
+      rw [loopRead_position (C15_strict_plumbing s).1 _ _ h₁ h₂ (by
+        rcases hl with hl | hl
+        · subst hl; intro h; simp at h
+        · intro h; simp at h; exact hl h.2), C15_attr_optional]
   have hf : readFile s (pre ++ i :: post) = .null := by
     rw [readFile_one i pre post hpre hpost]
     cases hr : readInst s i with | mk sv c =>
@@ -684,6 +794,61 @@ theorem C15_absent_required_incomplete (s r f g : Bool) (k : Kind) (hd : (f && g
     nodeState (readInst s i) = .incomplete := by
   rw [readFile_eq_repaired, readInst_eq_repaired]
   exact C15_repaired_absent_required_incomplete s r f g k hd i pre post hpre hpost h
+
+/-! ### … internally mapped instances and first parts of complex ones: whatever flags the class gives the position
+
+The redefinition forward comes before the derived check and the first part's severity is the instance's own, so the rows hold
+there without `hd` (e.g. a redeclared position that the class flags derived as well). -/
+
+theorem C15_strict_required_incomplete_sh (d r f g : Bool) (k : Kind) (i : InstIn) (pre post : List InstIn)
+    (hpre : ∀ x ∈ pre, CleanInst true x) (hpost : ∀ x ∈ post, CleanInst true x)
+    (h : OneMissingSH true (posAttr k false r f g) d i) :
+    readFile true (pre ++ i :: post) = .incomplete ∧ p21readExit (readFile true (pre ++ i :: post)) = 1 ∧
+    nodeState (readInst true i) = .incomplete := by
+  rw [readFile_one i pre post hpre hpost, complex_of_SH_cases h, C15_attr_strict_required]
+  cases h <;> exact ⟨rfl, rfl, rfl⟩
+
+theorem C15_lenient_substitutes_sh (k : Kind) (r f g : Bool) (hk : substitutable k = true) (i : InstIn)
+    (pre post : List InstIn) (hpre : ∀ x ∈ pre, CleanInst false x) (hpost : ∀ x ∈ post, CleanInst false x)
+    (h : OneMissingSH false (posAttr k false r f g) true i) :
+    readFile false (pre ++ i :: post) = .usermsg ∧ accepted (readFile false (pre ++ i :: post)) = true ∧
+    nodeState (readInst false i) = .complete := by
+  rw [readFile_one i pre post hpre hpost, complex_of_SH_cases h, C15_attr_lenient_substitutes k r f g hk]
+  cases h <;> exact ⟨rfl, rfl, rfl⟩
+
+theorem C15_lenient_other_incomplete_sh (k : Kind) (r f g : Bool) (hk : substitutable k = false) (i : InstIn)
+    (pre post : List InstIn) (hpre : ∀ x ∈ pre, CleanInst false x) (hpost : ∀ x ∈ post, CleanInst false x)
+    (h : OneMissingSH false (posAttr k false r f g) true i) :
+    readFile false (pre ++ i :: post) = .incomplete ∧ p21readExit (readFile false (pre ++ i :: post)) = 1 ∧
+    nodeState (readInst false i) = .incomplete := by
+  rw [readFile_one i pre post hpre hpost, complex_of_SH_cases h, C15_attr_lenient_other k r f g hk]
+  cases h <;> exact ⟨rfl, rfl, rfl⟩
+
+theorem C15_absent_required_incomplete_sh (s r f g : Bool) (k : Kind) (i : InstIn) (pre post : List InstIn)
+    (hpre : ∀ x ∈ pre, CleanInst s x) (hpost : ∀ x ∈ post, CleanInst s x)
+    (h : OneMissingSH s (posAttr k false r f g) false i) :
+    readFile s (pre ++ i :: post) = .incomplete ∧ p21readExit (readFile s (pre ++ i :: post)) = 1 ∧
+    nodeState (readInst s i) = .incomplete := by
+  rw [readFile_one i pre post hpre hpost, complex_of_SH_cases h, C15_attr_absent_required]
+  cases h <;> exact ⟨rfl, rfl, rfl⟩
+
+/-- the shape generated classes really have, on the audit's input: attribute list [redeclared position (INTEGER, required),
+    redefining entry, own INTEGER required], `#1=E($,7)` — the table applies through `OneMissing.slots` (strict: INCOMPLETE,
+    exit 1; lenient: user message, accepted) — and `#1=E(5,)` (absent LAST value) is the excluded case: WARNING, rejected -/
+theorem C15_slots_example :
+    let a : AttrD := posAttr .integer false false true
+    let b : AttrD := ⟨.integer, false, false, false, false⟩
+    let es := [Slot.attr a, Slot.redefining, Slot.attr b]
+    readFile true [.slots es [Tok.missing true, Tok.lit (.tok "7") .null]] = .incomplete ∧
+    readFile false [.slots es [Tok.missing true, Tok.lit (.tok "7") .null]] = .usermsg ∧
+    readFile true [.slots es [Tok.lit (.tok "5") .null, Tok.missing false]] = .warning ∧
+    p21readExit (readFile true [.slots es [Tok.lit (.tok "5") .null, Tok.missing false]]) = 1 := by
+  decide
+
+example : OneMissing true (posAttr .integer false false true) true
+    (.slots ([] ++ Slot.attr (posAttr .integer false false true) :: [Slot.redefining, Slot.attr ⟨.integer, false, false, false, false⟩])
+            ([] ++ Tok.missing true :: [Tok.lit (.tok "7") .null])) :=
+  .slots .nil (.red (by decide) (.attr rfl .nil)) (Or.inl rfl)
 
 /-- conforming populations and unset OPTIONAL attributes read cleanly whatever the shape of the complex-instance code -/
 theorem C15_any_shape_conforming_clean (S : CxShape) (s : Bool) (is : List InstIn) (h : ∀ x ∈ is, CleanInst s x) :
@@ -990,9 +1155,12 @@ theorem applyLetter_strict_mono (o : Opts) (c : Char) (h : o.strict = true) : (a
   all_goals simp_all
 
 open StepModel.ModeGlue in
-/-- p21read, any spelling of the flags whose letters are i, t, s (no `-v`, no unknown letter): strict mode is requested iff
-    some flag argument before `--` / before the first file name contains the letter `s` — every letter of a cluster counts -/
+/-- p21read called with 1 to 3 arguments (`_hargc`: outside `Generated.p21readArgcMin/Max` the program prints its usage before it
+    looks at any flag) and any spelling of the flags whose letters are i, t, s (`hl`: no `-v`, no unknown letter): strict mode
+    is requested iff some flag argument before `--` / before the first argument that is not a flag contains the letter `s` —
+    every letter of a cluster counts -/
 theorem C15_p21read_strict_iff_s (args : List String)
+    (_hargc : p21readArgcMin ≤ args.length + 1 ∧ args.length + 1 ≤ p21readArgcMax)
     (hl : ∀ a ∈ flagArgs args, ∀ c ∈ a.toList.tail, c = 'i' ∨ c = 't' ∨ c = 's') :
     (parseArgs initial args).1.strict = true ↔ ∃ a ∈ flagArgs args, 's' ∈ a.toList.tail := by
   -- generalised over the options accumulated so far (never exited, never usage)
